@@ -205,7 +205,8 @@ const gconcRule = "Each run draws scripts for the worker tasks (service events i
 func init() {
 	props = append(props, propDef{ID: "C20", Level: "exploration", Rule: gconcRule, Assumptions: gconcAssume, Components: gconcComponents,
 		Batches: []batch{{Engine: "gconc", Variant: "", Runs: 12000, RunsT: 400000, WallS: 120, WallST: 900, Note: "controller process"},
-			{Engine: "gconcspk", Variant: "", Runs: 12000, RunsT: 400000, WallS: 120, WallST: 900, Note: "speaker process"}}})
+			{Engine: "gconcspk", Variant: "", Runs: 12000, RunsT: 400000, WallS: 120, WallST: 900, Note: "speaker process"},
+			{Engine: "gl2", Variant: "", Runs: 30000, RunsT: 600000, WallS: 60, WallST: 600, Note: "layer-2 announcer: announce / withdraw handlers against the periodic announcement loop and the responders, with a drawn (small) announcement-queue capacity: no deadlock, no panic (no race detector in this batch)"}}})
 	props = append(props, propDef{ID: "C13", Level: "exploration", Rule: gl2Rule, Assumptions: gl2Assume, Components: gl2Components,
 		Batches: []batch{{Engine: "gl2", Variant: "", Runs: 60000, RunsT: 1500000, WallS: 170, WallST: 1500}}})
 	props = append(props, propDef{ID: "C19", Level: "exploration", Rule: gfrrRule + " " + gfrrk8sRule, Assumptions: gfrrAssume, Components: merge(gfrrComponents, gfrrk8sComponents),
